@@ -1,5 +1,6 @@
 import AsyncsshModel.Lemmas.StreamUntil
 import AsyncsshModel.Lemmas.StreamProc
+import AsyncsshModel.Model.StreamSrc
 import AsyncsshModel.Gen.C19
 /-
   C19 — Stream and process APIs deliver what was sent, split as asked.
@@ -445,6 +446,115 @@ theorem readuntil_partial_before_signal_example :
     (readuntilOne (lit "\n") { buf := [.data (lit "ab"), .exc (.other 2), .data (lit "c\n")], bufLen := 4 } []).1
       = .incomplete (lit "ab") := by decide
 
+/-! ### two streams, one pause flag (finding A-C19-3)
+
+  `_read_paused` and `_recv_buf_len` belong to the session: unread data of the OTHER stream (stderr while stdout is
+  read, or the reverse) can pause reading while nothing is buffered for this one.  The theorems below hold for every
+  state — also those in which `bufLen` counts bytes that are not in `buf`. -/
+
+theorem deliver_eof (s : St) (b : Bytes) : (deliver s b).eof = s.eof := by
+  unfold deliver
+  simp only
+  split <;> rfl
+
+theorem flush_keeps_eof (q : List Bytes) (s : St) (h : s.eof = true) : (flush s q).eof = true := by
+  induction q generalizing s with
+  | nil =>
+    unfold flush
+    simp only
+    split <;> simp_all
+  | cons b q ih =>
+    unfold flush
+    split
+    · exact h
+    · apply ih
+      rw [deliver_eof]; exact h
+
+theorem maybeResume_keeps_eof (s : St) (h : s.eof = true) : (maybeResume s).1.eof = true := by
+  unfold maybeResume
+  split
+  · exact flush_keeps_eof _ _ h
+  · exact h
+
+/-- **A partial read is reported only with something to report, or at EOF.**  For every state of the session
+    (paused or not, whatever the other stream holds), every separator set and every schedule: if `readuntil` raises
+    `IncompleteReadError` with an EMPTY partial result, EOF has been received.  (Before the repair the call also
+    gave up, empty-handed, whenever the session had paused reading: `readuntil_empty_partial_without_eof_prefix`.) -/
+theorem readuntil_empty_partial_only_at_eof (me : Bool) (seps : List Bytes) (seplen : Nat) (sched : Sched)
+    (s : St) (rbuf : Bytes) (cur : Nat) (s' : St) (sched' : Sched)
+    (h : untilLoop me seps seplen s rbuf cur sched = (.incomplete [], s', sched')) : s'.eof = true := by
+  induction sched generalizing s rbuf cur with
+  | nil =>
+    rw [untilLoop_unfold] at h
+    split at h
+    all_goals try (simp at h; done)
+    · next part nb hsc =>
+      -- an exception item was reached with data read before it: `part` is not empty
+      simp only [Prod.mk.injEq, Res.incomplete.injEq] at h
+      obtain ⟨hp, _, _⟩ := h
+      subst hp
+      exact absurd hsc (scan_excPartial_nonempty me seps seplen rbuf cur _ nb)
+    · next rbuf' cur' hsc =>
+      split at h
+      · next hc =>
+        simp only [Prod.mk.injEq, Res.incomplete.injEq] at h
+        obtain ⟨hp, hs', _⟩ := h
+        subst hp
+        have he : s.eof = true := by simpa using hc
+        rw [← hs']
+        exact maybeResume_keeps_eof _ he
+      · simp at h
+  | cons g rest ih =>
+    rw [untilLoop_unfold] at h
+    split at h
+    all_goals try (simp at h; done)
+    · next part nb hsc =>
+      simp only [Prod.mk.injEq, Res.incomplete.injEq] at h
+      obtain ⟨hp, _, _⟩ := h
+      subst hp
+      exact absurd hsc (scan_excPartial_nonempty me seps seplen rbuf cur _ nb)
+    · next rbuf' cur' hsc =>
+      split at h
+      · next hc =>
+        simp only [Prod.mk.injEq, Res.incomplete.injEq] at h
+        obtain ⟨hp, hs', _⟩ := h
+        subst hp
+        have he : s.eof = true := by simpa using hc
+        rw [← hs']
+        exact maybeResume_keeps_eof _ he
+      · exact ih _ _ _ h
+
+/-- **readline / readuntil wait when nothing is buffered for the stream and no EOF has come** — whether or not the
+    session has paused reading on account of the other stream -/
+theorem readline_waits_on_empty_stream (s : St) (hb : s.buf = []) (he : s.eof = false) :
+    (readline s []).1 = .blocked ∧ ∀ sep, sep ≠ [] → (readuntilOne sep s []).1 = .blocked := by
+  constructor
+  · unfold readline
+    rw [untilLoop_unfold]
+    simp [hb, scan, he]
+  · intro sep hsep
+    have : sep.isEmpty = false := by cases sep <;> simp_all
+    unfold readuntilOne
+    rw [untilLoop_unfold]
+    simp [this, hb, scan, he]
+
+/-- **Witness of finding A-C19-3 (repaired).**  The session's pause limit is 8 and the OTHER stream holds 8 unread
+    bytes (`bufLen = 8`, `paused`), nothing has arrived for this stream and no EOF: the code before the repair
+    returned `b''` from `readline()` — the documented "EOF and buffer empty" value — with `at_eof()` false, and
+    `readuntil` raised `IncompleteReadError(partial=b'')`; `async for line in stdout` turned into a busy loop. -/
+theorem readuntil_empty_partial_without_eof_prefix :
+    let s : St := { limit := 8, bufLen := 8, paused := true }
+    readlinePreFix s [] = (.ok [], s, []) ∧ atEof s = false ∧
+    untilLoopPreFix false [[newline]] 1 s [] 0 [] = (.incomplete [], s, []) := by
+  refine ⟨?_, ?_, ?_⟩ <;> decide
+
+/-- ... the repaired code waits; once the application has read the other stream the line arrives whole -/
+theorem readline_two_streams_example :
+    let s : St := { limit := 8, bufLen := 8, paused := true }
+    (readline s []).1 = .blocked ∧
+    (readline (otherRead s 8) [[.data (lit "hello "), .data (lit "world\n")]]).1 = .ok (lit "hello world\n") := by
+  refine ⟨?_, ?_⟩ <;> decide
+
 /-! ### non-vacuity: concrete runs of the same definitions -/
 
 theorem readexactly_chunk_independent_example :
@@ -596,32 +706,259 @@ theorem redirect_example :
 /-! ### drain -/
 
 open AsyncsshModel.StreamProc in
-/-- **drain contract**: `drain()` returns normally only when writing is not paused (and, if the channel is gone,
-    it went cleanly with nothing held back); if the channel is gone with an exception, or while writing was still
-    paused, it raises; it keeps waiting exactly while writing is paused and the channel is still there. -/
-theorem drain_contract (evs : List DEv) (s : DSt) :
-    match (drain s evs).1 with
-    | .returned => (drain s evs).2.writePaused = false ∧ ((drain s evs).2.connLost = true → (drain s evs).2.exc = false)
-    | .raisedExc => (drain s evs).2.connLost = true ∧ (drain s evs).2.exc = true
-    | .brokenPipe => (drain s evs).2.connLost = true ∧ (drain s evs).2.exc = false ∧ (drain s evs).2.writePaused = true
-    | .blocked => (drain s evs).2.writePaused = true ∧ (drain s evs).2.connLost = false := by
+/-- an event that does not wake a waiting `drain()` leaves it with a reason to wait (repaired code) -/
+theorem dstep_not_woken_still_blocked (s : DSt) (e : DEv) (hb : shouldBlockDrain s = true)
+    (hw : (dstepW true s e).2 = false) : shouldBlockDrain (dstepW true s e).1 = true := by
+  obtain ⟨wp, cl, ex, rd⟩ := s
+  cases e <;> cases wp <;> cases cl <;> cases rd <;> simp_all [dstepW, shouldBlockDrain]
+
+open AsyncsshModel.StreamProc in
+/-- an event that wakes a waiting `drain()` leaves nothing to wait for -/
+theorem dstep_woken_unblocked (fixed : Bool) (s : DSt) (e : DEv) (hw : (dstepW fixed s e).2 = true) :
+    shouldBlockDrain (dstepW fixed s e).1 = false := by
+  obtain ⟨wp, cl, ex, rd⟩ := s
+  cases fixed <;> cases e <;> cases wp <;> cases cl <;> cases rd <;> simp_all [dstepW, shouldBlockDrain]
+
+open AsyncsshModel.StreamProc in
+theorem drainFinish_spec (s : DSt) (hb : shouldBlockDrain s = false) :
+    match drainFinish s with
+    | .returned => s.writePaused = false ∧ s.reader = false ∧ (s.connLost = true → s.exc = false)
+    | .raisedExc => s.connLost = true ∧ s.exc = true
+    | .brokenPipe => s.connLost = true ∧ s.exc = false ∧ s.writePaused = true
+    | .blocked => False := by
+  obtain ⟨wp, cl, ex, rd⟩ := s
+  cases wp <;> cases cl <;> cases ex <;> cases rd <;> simp_all [drainFinish, shouldBlockDrain]
+
+open AsyncsshModel.StreamProc in
+/-- what a `drain()` call may conclude from its outcome -/
+def DrainPost (r : DrainRes) (s : DSt) : Prop :=
+  match r with
+  | .returned => s.writePaused = false ∧ s.reader = false ∧ (s.connLost = true → s.exc = false)
+  | .raisedExc => s.connLost = true ∧ s.exc = true
+  | .brokenPipe => s.connLost = true ∧ s.exc = false ∧ s.writePaused = true
+  | .blocked => shouldBlockDrain s = true
+
+open AsyncsshModel.StreamProc in
+theorem drainWait_contract (evs : List DEv) (s : DSt) (hb : shouldBlockDrain s = true) :
+    DrainPost (drainWait true s evs).1 (drainWait true s evs).2 := by
   induction evs generalizing s with
-  | nil =>
-    unfold drain
-    cases hp : s.writePaused <;> cases hl : s.connLost <;> cases he : s.exc <;> simp [hp, hl, he]
+  | nil => simpa [drainWait, DrainPost] using hb
   | cons e rest ih =>
-    unfold drain
-    cases hp : s.writePaused <;> cases hl : s.connLost <;> cases he : s.exc <;> simp [hp, hl, he] <;>
-      exact ih (dstep s e)
+    unfold drainWait
+    simp only
+    split
+    · next hw =>
+      have := drainFinish_spec _ (dstep_woken_unblocked true s e hw)
+      revert this
+      unfold DrainPost
+      cases drainFinish (dstepW true s e).1 <;> simp
+    · next hw =>
+      exact ih _ (dstep_not_woken_still_blocked s e hb (by simpa using hw))
+
+open AsyncsshModel.StreamProc in
+/-- **drain contract** (process sessions, the override `SSHProcess._should_block_drain` included): `drain()` returns
+    normally only when writing is not paused and no redirect source is still feeding the stream (and, if the channel
+    is gone, it went cleanly with nothing held back); if the channel is gone with an exception, or while writing was
+    still paused, it raises; it keeps waiting exactly while writing is paused with the channel still there, or a
+    redirect source is registered. -/
+theorem drain_contract (evs : List DEv) (s : DSt) : DrainPost (drain s evs).1 (drain s evs).2 := by
+  unfold drain drainW
+  split
+  · next hb => exact drainWait_contract evs s hb
+  · next hb =>
+    have := drainFinish_spec s (by simpa using hb)
+    revert this
+    unfold DrainPost
+    cases drainFinish s <;> simp
+
+open AsyncsshModel.StreamProc in
+theorem drainWait_lost_not_blocked (evs : List DEv) (s : DSt) (e : Bool) (h : DEv.lost e ∈ evs) :
+    (drainWait true s evs).1 ≠ .blocked := by
+  induction evs generalizing s with
+  | nil => simp at h
+  | cons a rest ih =>
+    unfold drainWait
+    simp only
+    split
+    · next hw =>
+      have := drainFinish_spec _ (dstep_woken_unblocked true s a hw)
+      intro hc
+      have hc' : drainFinish (dstepW true s a).1 = .blocked := hc
+      rw [hc'] at this
+      exact this
+    · next hw =>
+      simp only [List.mem_cons] at h
+      rcases h with rfl | h
+      · exfalso
+        apply hw
+        obtain ⟨wp, cl, ex, rd⟩ := s
+        simp [dstepW, shouldBlockDrain]
+      · exact ih _ h
+
+open AsyncsshModel.StreamProc in
+/-- **... or fails if the channel is gone**: a `drain()` never keeps waiting across the loss of its channel — whatever
+    was paused and whatever redirect source was registered, `connection_lost` ends the wait (the call then raises
+    or returns as `drain_contract` says). -/
+theorem drain_never_outlives_channel (evs : List DEv) (s : DSt) (e : Bool) (h : DEv.lost e ∈ evs) :
+    (drain s evs).1 ≠ .blocked := by
+  unfold drain drainW
+  split
+  · exact drainWait_lost_not_blocked evs s e h
+  · next hb =>
+    have := drainFinish_spec s (by simpa using hb)
+    intro hc
+    have hc' : drainFinish s = .blocked := hc
+    rw [hc'] at this
+    exact this
+
+open AsyncsshModel.StreamProc in
+/-- **Witness of finding A-C19-1 (repaired).**  A redirect source is registered for the stream and `drain()` waits
+    for it; the channel is closed (or the connection lost).  Before the repair the only `_unblock_drain` call of
+    `connection_lost` came while the reader was still registered: the waiter was not woken, and nothing woke it after
+    `self._readers = {}` — `drain()` neither returned nor raised, although nothing blocked it any more. -/
+theorem drain_hangs_after_channel_loss_prefix :
+    (drainPreFix { reader := true } [.lost false]).1 = .blocked ∧
+    shouldBlockDrain (drainPreFix { reader := true } [.lost false]).2 = false ∧
+    (drainPreFix { reader := true } [.lost true]).1 = .blocked ∧
+    (drain { reader := true } [.lost false]).1 = .returned ∧
+    (drain { reader := true } [.lost true]).1 = .raisedExc := by
+  refine ⟨?_, ?_, ?_, ?_, ?_⟩ <;> decide
 
 open AsyncsshModel.StreamProc in
 theorem drain_contract_example :
     (drain { writePaused := true } [.resumeWriting]).1 = .returned ∧
     (drain { writePaused := true } [.lost false]).1 = .brokenPipe ∧
     (drain { writePaused := true } [.lost true]).1 = .raisedExc ∧
-    (drain { writePaused := true } []).1 = .blocked := by
-  refine ⟨?_, ?_, ?_, ?_⟩ <;> decide
+    (drain { writePaused := true } []).1 = .blocked ∧
+    (drain {} [.setReader]).1 = .returned ∧
+    (drain { reader := true } [.pauseWriting, .resumeWriting]).1 = .blocked ∧
+    (drain { reader := true } [.pauseWriting, .readerDone, .resumeWriting]).1 = .returned := by
+  refine ⟨?_, ?_, ?_, ?_, ?_, ?_, ?_⟩ <;> decide
 
+/-! ### redirect after EOF, `recv_eof=False` -/
+
+open AsyncsshModel.StreamProc in
+/-- **Witness of finding A-C19-4 (repaired).**  Data and EOF arrive, then the application redirects stdout with
+    `recv_eof=False` to a target that does not re-check the flag itself (another process's stdin): before the repair
+    `feed_recv_buf` wrote EOF to it all the same; the repaired code leaves it open. -/
+theorem redirect_after_eof_recv_eof_false_prefix :
+    (prunPreFix { limit := 4 } [.data false (lit "one"), .eof, .tick, .redirect false]).targetEof = 1 ∧
+    (prun { limit := 4 } [.data false (lit "one"), .eof, .tick, .redirect false]).targetEof = 0 ∧
+    (prun { limit := 4 } [.data false (lit "one"), .eof, .tick, .redirect false]).target.flatten = lit "one" := by
+  refine ⟨?_, ?_, ?_⟩ <;> decide
+
+/-! ### redirect sources (the half of process.py that feeds the channel) -/
+
+open AsyncsshModel.StreamSrc in
+theorem wellFormed_none_nil (evs : List SEv) (h : WellFormed none none evs) : evs = [] := by
+  cases evs with
+  | nil => rfl
+  | cons e r => cases e <;> simp [WellFormed] at h <;> (try (obtain ⟨h1, _⟩ := h; revert h1; split <;> simp))
+
+open AsyncsshModel.StreamSrc in
+theorem srun_cons (s : SSt) (ev : SEv) (rest : List SEv) : srun s (ev :: rest) = srun (sstepW true s ev) rest := rfl
+
+open AsyncsshModel.StreamSrc in
+/-- **Redirect sources: all data, then EOF** (server side: stdout and stderr of a local program redirected into the
+    channel, `send_eof` as by default).  For every history in which each registered source delivers data while it
+    is registered and then ends: nothing a source delivers is refused by the channel, the channel carries exactly
+    what the sources delivered, in order, and EOF is sent when — and only when — the last source has ended. -/
+theorem sources_copy_all_then_eof (evs : List SEv) (s : SSt) (o e : Option Bool)
+    (ho : s.out = o) (he : s.err = e) (hs : s.eofSent = false)
+    (hwo : o ≠ some false) (hwe : e ≠ some false) (hwf : WellFormed o e evs) :
+    (srun s evs).refused = s.refused ∧ (srun s evs).stray = s.stray ∧
+    (srun s evs).wire = s.wire ++ delivered evs ∧
+    ((srun s evs).eofSent = true → (srun s evs).out = none ∧ (srun s evs).err = none) ∧
+    ((o.isSome = true ∨ e.isSome = true) → (srun s evs).out = none → (srun s evs).err = none →
+      (srun s evs).eofSent = true) := by
+  induction evs generalizing s o e with
+  | nil =>
+    refine ⟨rfl, rfl, by simp [srun, delivered], ?_, ?_⟩
+    · intro h; simp [srun, hs] at h
+    · intro h h1 h2
+      simp only [srun, List.foldl_nil] at h1 h2
+      rw [ho] at h1; rw [he] at h2
+      subst h1 h2
+      simp at h
+  | cons ev rest ih =>
+    rw [srun_cons]
+    cases ev with
+    | redirect a b => simp [WellFormed] at hwf
+    | data err b =>
+      obtain ⟨_, hwf'⟩ := hwf
+      have hstep : sstepW true s (.data err b) =
+          if b.isEmpty then s else { s with wire := s.wire ++ [(err, b)] } := by
+        simp [sstepW, feedData, hs]
+      by_cases hb : b.isEmpty
+      · rw [hstep, if_pos hb]
+        obtain ⟨i1, i2, i3, i4, i5⟩ := ih s o e ho he hs hwo hwe hwf'
+        exact ⟨i1, i2, by rw [i3]; simp [delivered, hb], i4, i5⟩
+      · rw [hstep, if_neg hb]
+        obtain ⟨i1, i2, i3, i4, i5⟩ := ih { s with wire := s.wire ++ [(err, b)] } o e ho he hs hwo hwe hwf'
+        exact ⟨i1, i2, by rw [i3]; simp [delivered, hb], i4, i5⟩
+    | srcEof err =>
+      obtain ⟨hreg, hwf'⟩ := hwf
+      cases err with
+      | false =>
+        simp only [Bool.false_eq_true, if_false] at hreg hwf'
+        -- stdout's source ends
+        cases o with
+        | none => simp at hreg
+        | some v =>
+          cases v with
+          | false => exact absurd rfl hwo
+          | true =>
+            cases e with
+            | none =>
+              have := wellFormed_none_nil rest hwf'
+              subst this
+              simp [srun, sstepW, feedEof, reg, setReg, anyWantsEof, ho, he, delivered]
+            | some w =>
+              cases w with
+              | false => exact absurd rfl hwe
+              | true =>
+                have hstep : sstepW true s (.srcEof false) = { s with out := none } := by
+                  simp [sstepW, feedEof, reg, setReg, anyWantsEof, ho, he]
+                rw [hstep]
+                obtain ⟨i1, i2, i3, i4, i5⟩ := ih { s with out := none } none (some true) rfl he hs (by simp) (by simp) hwf'
+                exact ⟨i1, i2, by rw [i3]; simp [delivered], i4, fun _ => i5 (Or.inr rfl)⟩
+      | true =>
+        simp only [if_true] at hreg hwf'
+        cases e with
+        | none => simp at hreg
+        | some w =>
+          cases w with
+          | false => exact absurd rfl hwe
+          | true =>
+            cases o with
+            | none =>
+              have := wellFormed_none_nil rest hwf'
+              subst this
+              simp [srun, sstepW, feedEof, reg, setReg, anyWantsEof, ho, he, delivered]
+            | some v =>
+              cases v with
+              | false => exact absurd rfl hwo
+              | true =>
+                have hstep : sstepW true s (.srcEof true) = { s with err := none } := by
+                  simp [sstepW, feedEof, reg, setReg, anyWantsEof, ho, he]
+                rw [hstep]
+                obtain ⟨i1, i2, i3, i4, i5⟩ := ih { s with err := none } (some true) none ho rfl hs (by simp) (by simp) hwf'
+                exact ⟨i1, i2, by rw [i3]; simp [delivered], i4, fun _ => i5 (Or.inl rfl)⟩
+
+open AsyncsshModel.StreamSrc in
+/-- **Witness of finding A-C19-2 (repaired).**  stdout and stderr are both redirected with `send_eof`; the stdout
+    source ends first, then the stderr source delivers `oops` and ends.  Before the repair EOF went out when the
+    FIRST source ended and `oops` was refused (`BrokenPipeError`); the repaired code carries it and sends EOF after
+    the second source. -/
+theorem first_source_eof_closes_channel_prefix :
+    let evs := [SEv.data false (lit "hello"), .srcEof false, .data true (lit "oops"), .srcEof true]
+    (srunPreFix { out := some true, err := some true } evs).refused = 1 ∧
+    (srunPreFix { out := some true, err := some true } evs).wire = [(false, lit "hello")] ∧
+    (srun { out := some true, err := some true } evs).refused = 0 ∧
+    (srun { out := some true, err := some true } evs).wire = [(false, lit "hello"), (true, lit "oops")] ∧
+    (srun { out := some true, err := some true } evs).eofSent = true ∧
+    WellFormed (some true) (some true) evs := by
+  refine ⟨by decide, by decide, by decide, by decide, by decide, by simp [WellFormed]⟩
 
 /-! ### the model's arithmetic and tests are the code's (expressions regenerated from asyncssh/stream.py) -/
 
@@ -679,10 +1016,38 @@ theorem readInner_split_matches_code (b : Bytes) (rest : List Item) (bl : Int) (
     have h1 : ¬ (0 < n ∧ n < (b.length : Int)) := by omega
     simp [readInner, h0, h1]
 
-/-- `drain` keeps waiting exactly under the code's `_should_block_drain` -/
+/-- `drain` keeps waiting exactly under the code's `_should_block_drain` — the override every process session runs
+    (`SSHProcess._should_block_drain`, asyncssh/process.py), which refers to the base class's test -/
 theorem drain_block_matches_code (s : StreamProc.DSt) :
-    (s.writePaused && !s.connLost) = true ↔ Gen.C19.shouldBlockDrainCode s.writePaused s.connLost := by
-  unfold Gen.C19.shouldBlockDrainCode
-  cases s.writePaused <;> cases s.connLost <;> simp
+    StreamProc.shouldBlockDrain s = true ↔ Gen.C19.procShouldBlockDrainCode s.reader s.writePaused s.connLost := by
+  unfold StreamProc.shouldBlockDrain Gen.C19.procShouldBlockDrainCode Gen.C19.shouldBlockDrainCode
+  cases s.reader <;> cases s.writePaused <;> cases s.connLost <;> simp
+
+/-- the model's `connection_lost` wakes the drain waiters after the readers are gone, as the code does (repair of
+    A-C19-1) -/
+theorem drain_wakeup_matches_code : Gen.C19.connLostUnblocksAfterReadersCleared = true := by decide
+
+open AsyncsshModel.StreamProc in
+/-- the EOF test of the model's `onRedirect` is the one `feed_recv_buf` makes -/
+theorem feed_recv_buf_eof_matches_code (eofSeen r : Bool) :
+    (eofSeen && r) = true ↔ Gen.C19.feedRecvBufEofCode eofSeen r := by
+  unfold Gen.C19.feedRecvBufEofCode
+  cases eofSeen <;> cases r <;> simp
+
+/-- the give-up test of the model's `untilLoop` is the one `readuntil` makes -/
+theorem until_giveup_matches_code (paused eof : Bool) (rbuf : Bytes) :
+    ((paused && !rbuf.isEmpty) || eof) = true ↔ Gen.C19.untilGiveUpCode paused (!rbuf.isEmpty) eof := by
+  unfold Gen.C19.untilGiveUpCode
+  cases paused <;> cases eof <;> cases rbuf.isEmpty <;> simp
+
+open AsyncsshModel.StreamSrc in
+/-- the EOF decision of the model's `feedEof` is the one `SSHProcess.feed_eof` makes: the ending reader is cleared
+    first, then EOF is sent if it was asked for and no other source still wants it (repair of A-C19-2) -/
+theorem feed_eof_matches_code (sendEof others : Bool) :
+    Gen.C19.feedEofClearsReaderFirst = true ∧
+    ((sendEof && !others) = true ↔ Gen.C19.feedEofSendCode sendEof others) := by
+  refine ⟨by decide, ?_⟩
+  unfold Gen.C19.feedEofSendCode
+  cases sendEof <;> cases others <;> simp
 
 end AsyncsshModel.C19
